@@ -98,7 +98,12 @@ impl SockWorker {
             let _ = std::fs::create_dir_all(&dir);
             let path = std::path::PathBuf::from(format!("{}/s{}-{}.sock", dir, std::process::id(), self.idx));
             let _ = std::fs::remove_file(&path);
-            let server = Server::http_unix(&path).expect("bind unix socket");
+            // every public way of building a server gets used
+            let server = match self.idx % 3 {
+                0 => Server::http_unix(&path).expect("bind unix socket"),
+                1 => Server::from_listener(std::os::unix::net::UnixListener::bind(&path).expect("bind unix socket"), None).expect("from_listener"),
+                _ => Server::new(tiny_http::ServerConfig { addr: tiny_http::ConfigListenAddr::unix_from_path(&path), ssl: None }).expect("Server::new"),
+            };
             self.unix = Some((Arc::new(server), path));
         }
         let (s, p) = self.unix.as_ref().unwrap();
@@ -107,7 +112,15 @@ impl SockWorker {
 
     fn tcp_server(&mut self) -> (Arc<Server>, std::net::SocketAddr) {
         if self.tcp.is_none() {
-            let server = Server::http("127.0.0.1:0").expect("bind tcp");
+            let server = match self.idx % 3 {
+                0 => Server::http("127.0.0.1:0").expect("bind tcp"),
+                1 => Server::from_listener(std::net::TcpListener::bind("127.0.0.1:0").expect("bind tcp"), None).expect("from_listener"),
+                _ => {
+                    // a list of candidate addresses
+                    let addrs: Vec<std::net::SocketAddr> = vec!["127.0.0.1:0".parse().unwrap(), "127.0.0.2:0".parse().unwrap()];
+                    Server::new(tiny_http::ServerConfig { addr: tiny_http::ConfigListenAddr::IP(addrs), ssl: None }).expect("Server::new")
+                }
+            };
             let addr = server.server_addr().to_ip().unwrap();
             self.tcp = Some((Arc::new(server), addr));
         }
